@@ -15,11 +15,14 @@ CLAIMED = {
                      "target lists use the same mapping. About 1400 obligations, tables unrolled exactly from the AST.",
                 note="Trusted: z3/cvc5, the VC generator, str.lower uninterpreted+idempotent with ground instances at literals; the documented table is "
                      "transcribed by hand from docs/en/perception/label.md; documentation rows naming non-existent members decide nothing.", ref="5/C14"),
-    "C17": dict(text="get_now_frame and get_interpolated_now_frame are verified for all time-ordered frame lists, query times and tolerances "
-                     "(argmin loop invariant; four-way neighbour outcome taken from the statement); interpolate_list is proved to be the exact "
-                     "linear interpolation, with the on-segment and exact-at-the-ends clauses as real-arithmetic lemmas.",
-                note="interpolate_ground_truth_frames is cut at an *assumed* contract (stamped with the query time, built from the two frames passed); the per-object "
-                     "pose clauses (slerp shortest arc, objects present in one neighbour kept) are not decided in this build. Floats as reals.", ref="5/C17"),
+    "C17": dict(text="get_now_frame and get_interpolated_now_frame are verified for all time-ordered frame lists, query times and tolerances (argmin loop invariant; four-way neighbour "
+                     "outcome from the statement); interpolate_list is the exact linear interpolation (on-segment and exact-at-the-ends lemmas). Object interpolation is verified too: "
+                     "interpolate_quaternion / interpolate_state / interpolate_dynamic_object / interpolate_object (position and velocity linear, orientation slerp at the proportional "
+                     "time, same id and frame, stamped int(t), a new object) and interpolate_object_list (two-stage invariant proof over three loops: ids matched by uuid are "
+                     "interpolated from their first partner, objects of either neighbour without a partner are kept as copies, every id exactly once).",
+                note="interpolate_ground_truth_frames itself is cut at an *assumed* contract (stamped with the query time, built from the two frames passed): its body (matrix interpolation, "
+                     "conversion to the map frame, deepcopy) is exercised by the bounded harness only. Assumed: pyquaternion slerp is a function with the right end points (shortest arc "
+                     "is the library's), deepcopy copies field values, ids unique and not None. One obligation is discharged by cvc5 after z3's e-matching gives up. Floats as reals.", ref="5/C17"),
     "C10": dict(text="_is_target_object is verified to compute exactly the statement's keep predicate (clause by clause, both directions) for a symbolic "
                      "object and all parameter lists; get_label_threshold against first-matching-target semantics; filter_objects and filter_object_results "
                      "are verified (loop invariants over a ghost prefix count, induction lemmas proved on every run) to return exactly the kept elements in "
